@@ -449,7 +449,7 @@ impl Prop for C08 {
         vec![
             "payload-source errors are not injected: the statement speaks of fragmented and not-ready sources only".into(),
             "async payload behind the blocking interface runs under the real futures_executor::block_on with a real helper thread delivering the wake; the outcome is token-based (park/unpark), the timing of the helper is not simulated".into(),
-            "a run that does not return within the 60 s wall-clock watchdog is reported as class 'hang'".into(),
+            "a run that does not return within the 240 s wall-clock watchdog is reported as class 'hang'".into(),
         ]
     }
     fn components(&self) -> Value {
